@@ -14,6 +14,11 @@ pub mod c36;
 pub mod c38;
 pub mod c39;
 pub mod c40;
+pub mod c41;
+pub mod c42;
+pub mod c43;
+pub mod c44;
+pub mod c45;
 pub mod packet;
 pub mod server;
 pub mod source;
@@ -51,5 +56,10 @@ pub fn registry() -> Vec<Entry> {
         entry::<c38::C38>(false),
         entry::<c39::C39>(true),
         entry::<c40::C40>(false),
+        entry::<c41::C41>(true),
+        entry::<c42::C42>(false),
+        entry::<c43::C43>(false),
+        entry::<c44::C44>(false),
+        entry::<c45::C45>(false),
     ]
 }
